@@ -47,7 +47,7 @@ type c19Case struct {
 	Salt  int      `json:"salt"`
 	Input string   `json:"input"` // name of the input encoding
 	In    []pRec   `json:"in"`
-	Mode  string   `json:"mode"` // "template" | "manual" | "bitor"
+	Mode  string   `json:"mode"`          // "template" | "manual" | "bitor"
 	In2   []pRec   `json:"in2,omitempty"` // another input of the same message, rewritten in between (reuse of the Rewriter)
 }
 
@@ -712,7 +712,7 @@ func c19Vector(c *Ctx, raw stdjson.RawMessage) {
 func c19Replay(c *Ctx, raw stdjson.RawMessage) {
 	var k c19Case
 	if stdjson.Unmarshal(raw, &k) == nil {
-		if strings.HasPrefix(k.Mode, "literal:lengths") || strings.HasPrefix(k.Mode, "literal:unexported") {
+		if strings.HasPrefix(k.Mode, "literal:lengths") || strings.HasPrefix(k.Mode, "literal:unexported") || strings.HasPrefix(k.Mode, "literal:mapkey") {
 			c19Lengths(c)
 			return
 		}
@@ -817,7 +817,9 @@ func c19Unexported(c *Ctx) {
 		k := c19Case{Mode: fmt.Sprintf("literal:unexported template=%d", ti)}
 		var rw proto.Rewriter
 		var err error
-		if p := protect(func() { rw, err = proto.ParseRewriteTemplate(proto.TypeOf(reflect.TypeOf(c19Naked{})), []byte(tm.text)) }); p != "" || err != nil {
+		if p := protect(func() {
+			rw, err = proto.ParseRewriteTemplate(proto.TypeOf(reflect.TypeOf(c19Naked{})), []byte(tm.text))
+		}); p != "" || err != nil {
 			c.Diverge("C19", "proto.ParseRewriteTemplate(struct with unexported fields between the others)", "a Rewriter", fmt.Sprintf("%v %s", err, p), "", k)
 			continue
 		}
@@ -840,8 +842,46 @@ func c19Unexported(c *Ctx) {
 	}
 }
 
+// c19MapKeys: the keys of a templated map<string, scalar> field are JSON strings: escapes in them are resolved once
+type c19Keyed struct {
+	A int32
+	M map[string]int32
+	Z string
+}
+
+func c19MapKeys(c *Ctx) {
+	keys := []string{"plain", "C:\\new\\table", "q\"k", "tab\tin", "u\u00e9", "\\", "a\\\\b", "\\n", "</k>", ""}
+	for ki, key := range keys {
+		k := c19Case{Mode: fmt.Sprintf("literal:mapkey %d", ki)}
+		kj, _ := stdjson.Marshal(key)
+		tmpl := `{"M": {` + string(kj) + `: 42}}`
+		var rw proto.Rewriter
+		var err error
+		if p := protect(func() { rw, err = proto.ParseRewriteTemplate(proto.TypeOf(reflect.TypeOf(c19Keyed{})), []byte(tmpl)) }); p != "" || err != nil {
+			c.Diverge("C19", "proto.ParseRewriteTemplate(map key with escapes)", "a Rewriter", fmt.Sprintf("%v %s template=%s", err, p, tmpl), "", k)
+			continue
+		}
+		for _, v := range []c19Keyed{{A: 1, Z: "z"}, {A: 2, M: map[string]int32{"old": 1}, Z: "zz"}} {
+			in, _ := proto.Marshal(v)
+			var out []byte
+			c.Case()
+			c.Eval(1)
+			if p := protect(func() { out, err = rw.Rewrite(nil, in) }); p != "" || err != nil {
+				c.Diverge("C19", "Rewriter.Rewrite(map key with escapes)", "a message", fmt.Sprintf("%v %s", err, p), "", k)
+				continue
+			}
+			var got c19Keyed
+			e := proto.Unmarshal(out, &got)
+			if e != nil || got.A != v.A || got.Z != v.Z || len(got.M) != 1 || got.M[key] != 42 {
+				c.Diverge("C19", "Unmarshal(Rewrite(in))(map key with escapes)", fmt.Sprintf("A=%d Z=%s M={%q: 42}", v.A, v.Z, key), fmt.Sprintf("%+v err=%v", got, e), "", k)
+			}
+		}
+	}
+}
+
 func c19Lengths(c *Ctx) {
 	c19Unexported(c)
+	c19MapKeys(c)
 	lens := []int{0, 1, 126, 127, 128, 129, 200, 16382, 16383, 16384, 16390}
 	for _, depth := range []int{1, 2} {
 		for _, lt := range []int{0, 1, 5, 126, 128, 131, 16384} {
